@@ -75,6 +75,98 @@ theorem run_stream_congr (c : Comp Q A Res) (h : List (Q × A)) (d₁ d₂ : Nat
     simp only [List.length_append, List.length_cons, List.length_nil] at hi
     omega
 
+
+/-! ### an input that is never asked about: the old content of an output state
+
+`run_congr_asked` says a run is determined by the answers to the questions it asks.  The converse-style witness: a
+computation that takes part of its output from an input it never asks about (uninitialised memory is exactly
+that: no draw, no callback, no poll reveals it) has the *same transcript* for every value of that input and yet
+*different outputs* — so it is not reproducible from (seed, problem, budget).  The model is a sampler that writes an
+output state component by component from draws but skips the flagged components, the shape of
+`CompoundStateSampler::sampleUniformNear` without its `else samplers_[i]->sampleUniform(comps[i])` branch. -/
+
+def Comp.map {S : Type} (f : Res → S) : Comp Q A Res → Comp Q A S
+  | .done o => .done (f o)
+  | .ask q k => .ask q fun a => Comp.map f (k a)
+
+theorem run_map {S : Type} (f : Res → S) (env : Env Q A) (c : Comp Q A Res) (h : List (Q × A)) :
+    (c.map f).run env h = ((c.run env h).1, f (c.run env h).2) := by
+  induction c generalizing h with
+  | done o => rfl
+  | ask q k ih => simp only [Comp.map, Comp.run]; exact ih _ _
+
+/-- `skipSampler skip old`: for each component, either keep what the output state held (`old`, flag `true`) or
+ask for a draw and write it (flag `false`). -/
+def skipSampler {α : Type} : List Bool → List α → Comp Unit α (List α)
+  | true :: sk, g :: gs => (skipSampler sk gs).map (g :: ·)
+  | false :: sk, _ :: gs => .ask () fun a => (skipSampler sk gs).map (a :: ·)
+  | _, _ => .done []
+
+/-- the old content never shows in the transcript … -/
+theorem skipSampler_transcript_ignores_old {α : Type} (env : Env Unit α) (sk : List Bool) (g₁ g₂ : List α)
+    (hl : g₁.length = g₂.length) (h : List (Unit × α)) :
+    ((skipSampler sk g₁).run env h).1 = ((skipSampler sk g₂).run env h).1 := by
+  induction sk generalizing g₁ g₂ h with
+  | nil => simp [skipSampler, Comp.run]
+  | cons b sk ih =>
+    cases g₁ with
+    | nil =>
+      cases g₂ with
+      | nil => cases b <;> simp [skipSampler, Comp.run]
+      | cons _ _ => simp at hl
+    | cons x xs =>
+      cases g₂ with
+      | nil => simp at hl
+      | cons y ys =>
+        have hl' : xs.length = ys.length := by simpa using hl
+        cases b with
+        | true => simp only [skipSampler, run_map]; exact ih xs ys hl' h
+        | false => simp only [skipSampler, Comp.run, run_map]; exact ih xs ys hl' _
+
+/-- … but as soon as one component is skipped, the output depends on it: same environment (same seed, same
+callbacks), same transcript, different results. -/
+theorem skipSampler_output_depends_on_old {α : Type} (env : Env Unit α) (sk : List Bool) (hs : true ∈ sk)
+    (x y : α) (hxy : x ≠ y) (h : List (Unit × α)) :
+    ((skipSampler sk (List.replicate sk.length x)).run env h).2 ≠
+      ((skipSampler sk (List.replicate sk.length y)).run env h).2 := by
+  induction sk generalizing h with
+  | nil => simp at hs
+  | cons b sk ih =>
+    cases b with
+    | true =>
+      simp only [List.length_cons, List.replicate_succ, skipSampler, run_map]
+      intro e
+      exact hxy (List.cons.inj e).1
+    | false =>
+      have hs' : true ∈ sk := by simpa using hs
+      simp only [List.length_cons, List.replicate_succ, skipSampler, Comp.run, run_map]
+      intro e
+      exact ih hs' _ (List.cons.inj e).2
+
+/-- a sampler that writes every component is reproducible whatever the output state held -/
+theorem skipSampler_full_ignores_old {α : Type} (env : Env Unit α) (sk : List Bool) (hs : true ∉ sk)
+    (g₁ g₂ : List α) (hl : g₁.length = g₂.length) (h : List (Unit × α)) :
+    (skipSampler sk g₁).run env h = (skipSampler sk g₂).run env h := by
+  induction sk generalizing g₁ g₂ h with
+  | nil => simp [skipSampler, Comp.run]
+  | cons b sk ih =>
+    cases b with
+    | true => simp at hs
+    | false =>
+      have hs' : true ∉ sk := by simpa using hs
+      cases g₁ with
+      | nil =>
+        cases g₂ with
+        | nil => simp [skipSampler, Comp.run]
+        | cons _ _ => simp at hl
+      | cons x xs =>
+        cases g₂ with
+        | nil => simp at hl
+        | cons y ys =>
+          have hl' : xs.length = ys.length := by simpa using hl
+          simp only [skipSampler, Comp.run, run_map]
+          rw [ih hs' xs ys hl' _]
+
 /-! ### the planner instance -/
 
 /-- what a planner may ask: a draw from its generator, an evaluation of a user callback on `x`
